@@ -1,4 +1,4 @@
-import PkgProofs.Lemmas.ReqRound
+import PkgProofs.Lemmas.ReqWf
 /-!
 # C08 — Requirement parsing decomposes PEP 508 strings faithfully
 
@@ -11,9 +11,12 @@ Theorems about `Req` (`PkgModel/Requirement.lean`), the model the correspondence
 4. `eq_is_pep503_and_spec_eq`, `eq_equivalence` — what `==` compares.
 5. `extras_as_set` — order / repetition of extras is irrelevant to `==`, hash and `str`.
 6. `hash_agrees` — `==` implies the same hash key.
+3. `marker_after_url_needs_ws` — the URL is a maximal run of non-white-space characters; a marker exists only behind
+   white space after it.
+7. `requirement_marker_eq_marker` — the marker part is `Marker(text)` of the text after the semicolon.
 -/
 namespace C08
-open Py Mk Req ReqLex ReqParse ReqL ReqRound
+open Py Mk Req ReqLex ReqParse ReqL ReqRound ReqWf
 set_option linter.unusedSimpArgs false
 
 /-! ### 1. `str` parses back (character level) -/
@@ -30,50 +33,6 @@ theorem str_roundtrip (r : Requirement) (h : Wf r) :
 theorem str_idempotent (r : Requirement) (h : Wf r) : (Req.parse (Req.str r)).toOption.map Req.str = some (Req.str r) := by
   obtain ⟨r', h1, _, h2, _⟩ := str_roundtrip r h
   simp [h1, Except.toOption, h2]
-
-/-! ### inversion of the top-level functions -/
-
-theorem parseSource_inv (src : Str) (P : Parsed) (h : parseSource src = .ok P) :
-    ∃ st1 st2 st3, checkR .identifier (ws ⟨none, src⟩) = some (P.name, st1) ∧
-      parseExtras (fuelFor src.length) (ws st1) = .ok (P.extras, st2) ∧
-      parseDetails (fuelFor src.length) (ws st2) = .ok (P.url, P.specifier, P.marker, st3) ∧ peekEnd st3 = true := by
-  unfold parseSource parseRequirement at h
-  split at h
-  · cases h
-  · rename_i name st1 hname
-    simp only [bind, Except.bind] at h
-    split at h
-    · cases h
-    · rename_i v1 he
-      obtain ⟨exs, st2⟩ := v1
-      split at h
-      · cases h
-      · rename_i v2 hd
-        obtain ⟨url, spec, m, st3⟩ := v2
-        split at h
-        · rename_i hend
-          simp only [pure, Except.pure, Except.ok.injEq] at h
-          subst h
-          exact ⟨st1, st2, st3, hname, he, hd, hend⟩
-        · cases h
-
-theorem parse_inv (src : Str) (r : Requirement) (h : Req.parse src = .ok r) :
-    ∃ P spec, parseSource src = .ok P ∧ mkSpecSet P.specifier = .ok spec ∧ r.name = P.name ∧
-      r.url = (if P.url.isEmpty then none else some P.url) ∧ r.extras = dedup P.extras ∧ r.spec = spec ∧
-      r.marker = P.marker.map (normalizeExtra Req.X) := by
-  unfold Req.parse at h
-  simp only [bind, Except.bind] at h
-  split at h
-  · cases h
-  · rename_i P hP
-    unfold ofParsed at h
-    simp only [bind, Except.bind] at h
-    split at h
-    · cases h
-    · rename_i spec hs
-      simp only [pure, Except.pure, Except.ok.injEq] at h
-      subst h
-      exact ⟨P, spec, hP, hs, rfl, rfl, rfl, rfl, rfl⟩
 
 theorem mkSpecSet_nil : mkSpecSet [] = .ok [] := by
   simp [mkSpecSet, clauses, splitOn, strip, parseAll, specSet]
@@ -200,4 +159,25 @@ theorem extras_as_set (P Q : Parsed) (hn : P.name = Q.name) (hu : P.url = Q.url)
         have h2 := sortBy_isEmpty strLe (dedup Q.extras)
         rw [← h1, ← h2, e1]
       simp only [Req.str, sortedExtras, hn, e1, e2, hu, hm]
+
+/-! ### 3. A marker after a URL needs separating white space -/
+
+/-- **the URL runs up to the next space or tab (or the end); a marker is only recognised behind such white space.**
+`src = pre ++ url ++ post`, `url` is non-empty and free of space and tab, `post` is empty or starts with a space or
+tab, and when the requirement has a marker `post` is not empty.  So in `name @ https://h/p;os_name=="a"` the `;…`
+is part of the URL (`Examples.glued_semicolon`). -/
+theorem marker_after_url_needs_ws (src : Str) (r : Requirement) (u : Str) (h : Req.parse src = .ok r) (hu : r.url = some u) :
+    u ≠ [] ∧ (∀ x ∈ u, x ≠ 32 ∧ x ≠ 9) ∧ ∃ pre post, src = pre ++ u ++ post ∧
+      (∀ c, post.head? = some c → c = 32 ∨ c = 9) ∧ (r.marker.isSome = true → post ≠ []) :=
+  url_then_ws src r u h hu
+
+/-! ### 7. The marker part is the stand-alone marker of the same text -/
+
+/-- **`Requirement(src).marker` equals `Marker(text)`** for the text after the semicolon: the source splits as
+`pre ++ ";" ++ text` such that the stand-alone entry point (`Mk.mkMarker`: tokenizer, marker parser with its own
+recursion budget, `_normalize_extra_values`) returns exactly the requirement's marker list — hence the same `str`,
+`==`, hash and evaluation. -/
+theorem requirement_marker_eq_marker (src : Str) (r : Requirement) (m : List M) (h : Req.parse src = .ok r)
+    (hm : r.marker = some m) : ∃ pre text, src = pre ++ 59 :: text ∧ Mk.mkMarker Req.X text = .ok m :=
+  marker_eq_marker src r m h hm
 end C08
